@@ -152,7 +152,7 @@ def propagate_function(f, ref_names):
             # an expression that builds a new object (display, comprehension, arbitrary call) has identity: it may only replace a single use,
             # and never a use that mutates it (receiver of a method call, target of an item / attribute store)
             PURE = {'len', 'min', 'max', 'abs', 'int', 'float', 'str', 'bool', 'tuple', 'sum', 'round', 'dict', 'zip', 'list', 'set', 'sorted', 'frozenset', 'range', 'enumerate',
-                    'isinstance', 'repr', 'ord', 'chr', 'any', 'all', 'reversed', 'map', 'filter'}
+                    'isinstance', 'repr', 'ord', 'chr', 'any', 'all', 'reversed', 'map', 'filter', 'slice'}
             # an expression that calls anything but a pure builtin may have effects (reading a file, advancing an iterator): it replaces a
             # single use only.  An expression that builds a new object (display, comprehension, constructor) has identity: it is never
             # substituted into a use that can mutate it (attribute access / item store on the name) and not when the name is aliased.
